@@ -16,7 +16,7 @@ ALL = ["C%02d" % i for i in range(1, 20)]
 NOT_APPLICABLE = {
     "C01": "cluster-level convergence over message loss/reordering and repair schedules runs through tokio tasks, hyper and chitchat; none of it compiles under Kani (ICE on catch_unwind) and it has no bounded function-level kernel beyond what C02/C03/C04/C05 decide",
     "C06": "the acknowledgement-counting loop is a private generic async fn over FuturesUnordered fed by RPC client futures; it pulls the networking stack into reachability (Kani ICE); the required-count half is decided under C15",
-    "C07": "the rebuild kernel is the inline body of KeyspaceGroup::load_states_from_storage (Instant::now, BTreeMap<Cow<str>,_>, parking_lot maps, tokio-spawning constructor); it needs std sort on a symbolic heap Vec and a BTreeMap<Cow<str>,_> observer, both measured not to finish (bulk handlers: 1 h; C15 mount: 15 min); extracting the loop by hand would verify a transcription. Its halves are partly decided by C04 (replay into the empty set in any order) and C02 (store never behind the set)",
+    "C07": "the rebuild kernel is the inline body of KeyspaceGroup::load_states_from_storage (Instant::now, BTreeMap<Cow<str>,_>, parking_lot maps, tokio-spawning constructor); its result is only observable through a map of actor mailboxes that load_states builds by spawning puppet actors on tokio (Kani ICE on the runtime), and the loop cannot be called apart from that; extracting it by hand would verify a transcription. Its halves are partly decided by C04 (replay into the empty set in any order) and C02 (store never behind the set)",
     "C11": "a property of schedules of a tokio actor and channel; Kani does not model concurrency (the sequential kernel is C09)",
     "C13": "registry maps hold heap String keys and Arc<dyn Handler>; CBMC did not finish the smallest instance (2 services, 3 steps) in 8-15 min in three formulations, and the property has no symbolic data to quantify over",
     "C14": "turmoil simulation + HTTP/2: schedule space of an I/O runtime, no function-level kernel to encode",
